@@ -117,6 +117,16 @@ func genModel(p *simkit.Plan, r *simkit.Rand, tier string) {
 	for i := r.Range(0, 8); i > 0; i-- {
 		genEdit(r, p, "init", &id, untracked)
 	}
+	if p.Scenario == "disk-docker" {
+		c["docker_ignores"] = 2
+		c["sched_stall"], c["fs_gates"] = 0, int64(simkit.Pick(r, []int{0, 0, 3}))
+		c["mode"] = int64(simkit.Pick(r, []int{0, 0, 1}))
+		p.Ops = p.Ops[:0]
+		for _, op := range [][3]string{{"alpha", "a/x", ""}, {"alpha", "a/gen/keep", ""}, {"alpha", "a/gen/junk1", ""}, {"beta", "a/gen/junk2", ""}} {
+			id++
+			p.Ops = append(p.Ops, simkit.Op{Actor: "init", Kind: "put", N: []int64{id, 0}, S: []string{op[0], op[1]}})
+		}
+	}
 	dockerPaths := []string{"ig/x", "ig/a/s", "ig/a/b/p", "ig/a/b/q", "ig/c/t"}
 	if p.Scenario == "disk-untracked" && r.Chance(1, 3) {
 		// Docker-style ignores: an ignored directory that is traversed under a
@@ -154,6 +164,21 @@ func genModel(p *simkit.Plan, r *simkit.Rand, tier string) {
 		wide := 0
 		if !onDisk && !lifecycle {
 			wide = 3
+		}
+		if c["docker_ignores"] == 2 && r.Chance(1, 2) {
+			// The excepted file comes and goes; ignored content beside it.
+			id++
+			side := simkit.Pick(r, []string{"alpha", "beta"})
+			switch r.Intn(5) {
+			case 0, 1:
+				p.Ops = append(p.Ops, simkit.Op{Actor: "user", Kind: "del", S: []string{side, "a/gen/keep"}})
+			case 2:
+				p.Ops = append(p.Ops, simkit.Op{Actor: "user", Kind: "put", N: []int64{id, 0}, S: []string{side, "a/gen/keep"}})
+			case 3:
+				p.Ops = append(p.Ops, simkit.Op{Actor: "user", Kind: "put", N: []int64{id, 0}, S: []string{side, simkit.Pick(r, []string{"a/gen/junk1", "a/gen/junk3", "a/gen/sub/j"})}})
+			case 4:
+				p.Ops = append(p.Ops, simkit.Op{Actor: "client", Kind: "flush", N: []int64{1}})
+			}
 		}
 		if c["docker_ignores"] == 1 && r.Chance(1, 4) {
 			// The user works inside the ignored directory.
@@ -1532,6 +1557,12 @@ func (h *harness) finalChecks() {
 		for _, p := range sorted {
 			ea, eb := lookup(a, p), lookup(b, p)
 			if underConflict(p) || unsyncAbove(a, p) || unsyncAbove(b, p) {
+				continue
+			}
+			if h.plan.C("docker_ignores") == 2 && (p == "a/gen" || strings.HasPrefix(p, "a/gen/")) {
+				// Whether the masked directory itself is tracked depends on both
+				// sides and the ancestor; this scenario is judged by the
+				// per-cycle fixpoint rule, not by the reference walk.
 				continue
 			}
 			if st.AlphaState != nil && len(st.AlphaState.TransitionProblems)+len(st.BetaState.TransitionProblems) > 0 {
